@@ -638,6 +638,23 @@ func specialShapes() []*shape {
 		sh.root = st
 		out = append(out, sh)
 	}
+	{ // the same Go field name with the same type in two value-embedded structs, told apart by tags
+		sh := &shape{name: "M1", family: "dup"}
+		sh.decls = append(sh.decls, "type M1_T int32", "type M1_T_same int32", "type M1_U string", "type M1_U_same string", "type M1_P int8", "type M1_P_same int8")
+		kT, kU, kP := classes[4][0], classes[6][0], classes[1][1]
+		a := &structT{name: "M1_A", fields: []field{{name: "ID", typ: "M1_T", leaf: &kT, tag: "src"}, {name: "N", typ: "M1_U", leaf: &kU}}}
+		b := &structT{name: "M1_B", fields: []field{{name: "Pad", typ: "M1_P", leaf: &kP}, {name: "ID", typ: "M1_T", leaf: &kT, tag: "dst"}}}
+		sh.root = &structT{name: "M1", fields: []field{{name: "M1_A", typ: "M1_A", embedded: true, sub: a}, {name: "M1_B", typ: "M1_B", embedded: true, sub: b}}}
+		out = append(out, sh)
+	}
+	{ // a field behind an embedded pointer whose name AND pointer-offset + inner-offset coincide with a field of the outer struct
+		sh := &shape{name: "Q1", family: "embedptr"}
+		sh.decls = append(sh.decls, "type Q1_P int64", "type Q1_P_same int64", "type Q1_W int64", "type Q1_W_same int64", "type Q1_T int32", "type Q1_T_same int32", "type Q1_V int32", "type Q1_V_same int32")
+		k64, k32 := classes[5][0], classes[4][0]
+		in := &structT{name: "Q1_In", fields: []field{{name: "Pad", typ: "Q1_P", leaf: &k64}, {name: "X", typ: "Q1_W", leaf: &k64}}}
+		sh.root = &structT{name: "Q1", fields: []field{{name: "Q1_In", typ: "Q1_In", embedded: true, ptr: true, sub: in}, {name: "X", typ: "Q1_T", leaf: &k32}, {name: "Y", typ: "Q1_V", leaf: &k32}}}
+		out = append(out, sh)
+	}
 	for v := 0; v < 4; v++ { // same field name at two depths, different types; same type at two depths, different names
 		sh := &shape{name: fmt.Sprintf("D%d", v+1), family: "dup"}
 		in := &structT{name: sh.name + "_In"}
